@@ -1556,3 +1556,37 @@ TABLE["C09"] += [
     B("docstring-literal-as-json", {"W11"},
       (PW, "        body = re.sub(r'\\\\(x[0-9a-f]{2}|.)', bounded, repr(text)[1:-1])\n        return '\"' + body.replace('\"', r'\\\"') + '\"'\n", "        import json\n        return json.dumps(text)\n")),
 ]
+
+# round 7
+TABLE["C10"] += [
+    B("ignore-table-is-a-string", {"T15"}, (MX, "    ignore_methods: Tuple = ('pickle', )", "    ignore_methods: Tuple = ('pickle')")),
+    N("ignore-table-as-a-list", (MX, "    ignore_methods: Tuple = ('pickle', )", "    ignore_methods: Tuple = ['pickle']")),
+    B("preamble-skips-unserializable-classes", {"T1"},
+      (MW, "            # Generate the _deleteAllObjects method\n", "            if self.use_boost_serialization:\n                if not self._has_serialization(cls):\n                    continue\n            # Generate the _deleteAllObjects method\n")),
+]
+for _p, _r in (("C11", "H5"), ("C18", "K7")):
+    TABLE[_p] += [
+        B("unwrap-shared-ptr-returns-a-non-owning-alias", {_r}, (H, "  return *spp;\n}", "  return std::shared_ptr<Class>(std::shared_ptr<Class>(), spp->get());\n}")),
+    ]
+for _p, _r in (("C11", "H12"), ("C18", "K14")):
+    TABLE[_p] += [
+        B("uint32-read-as-int32", {_r}, (H, "    case mxUINT64_CLASS:\n      return (T) *(std::uint64_t*) mxGetData(array);\n",
+                                        "    case mxUINT64_CLASS:\n      return (T) *(std::uint64_t*) mxGetData(array);\n    case mxINT32_CLASS:\n    case mxUINT32_CLASS:\n      return (T) *(std::int32_t*) mxGetData(array);\n")),
+        N("int32-read-as-int32", (H, "    case mxUINT64_CLASS:\n      return (T) *(std::uint64_t*) mxGetData(array);\n",
+                                  "    case mxUINT64_CLASS:\n      return (T) *(std::uint64_t*) mxGetData(array);\n    case mxINT32_CLASS:\n      return (T) *(std::int32_t*) mxGetData(array);\n    case mxUINT32_CLASS:\n      return (T) *(std::uint32_t*) mxGetData(array);\n")),
+    ]
+TABLE["C17"] += [
+    B("arity-filter-as-a-range", {"Q5"}, (XP, "            if len(method_args_names) != num_req_params and len(\n                    method_args_names) != num_tot_params:",
+                                          "            if not num_req_params <= len(method_args_names) <= num_tot_params:")),
+    N("arity-filter-as-membership", (XP, "            if len(method_args_names) != num_req_params and len(\n                    method_args_names) != num_tot_params:",
+                                     "            if len(method_args_names) not in (num_req_params, num_tot_params):")),
+]
+TABLE["C16"] += [
+    B("additional-files-filtered-by-suffix", {"Y2"}, (PW, "        for source in sources[1:]:\n            module_name = Path(source).stem\n            submodules.append(module_name)\n",
+                                                      "        for source in sources[1:]:\n            if Path(source).suffix != '.i':\n                continue\n            module_name = Path(source).stem\n            submodules.append(module_name)\n")),
+]
+TABLE["C05"] += [
+    B("files-of-the-same-size-are-kept", {"I7"},
+      (MW, "                with open(path_to_file, 'w', encoding=\"UTF-8\") as f:\n                    f.write(c[1])\n",
+       "                if not (osp.isfile(path_to_file) and osp.getsize(path_to_file) == len(c[1].encode('UTF-8'))):\n                    with open(path_to_file, 'w', encoding=\"UTF-8\") as f:\n                        f.write(c[1])\n")),
+]
